@@ -165,6 +165,10 @@ class BuildSystem():
 
     def _handle_random_walk(self, molecule, mol_idx, vector_sphere):
         step_count = 0
+        # a failed attempt may only discard the positions it generated itself;
+        # positions supplied by the user (build is False) have to stay
+        built_nodes = [node for node in molecule.nodes
+                       if molecule.nodes[node].get("build", True)]
         while True:
             start_idx = np.random.randint(len(self.box_grid))
             start = self.box_grid[start_idx]
@@ -182,11 +186,11 @@ class BuildSystem():
             if processor.success:
                 return True, processor.nonbond_matrix
             elif step_count == self.maxiter:
-                processor.nonbond_matrix.remove_positions(mol_idx, molecule.nodes)
+                processor.nonbond_matrix.remove_positions(mol_idx, built_nodes)
                 return False, processor.nonbond_matrix
             else:
                 step_count += 1
-                self.nonbond_matrix.remove_positions(mol_idx, molecule.nodes)
+                self.nonbond_matrix.remove_positions(mol_idx, built_nodes)
 
     def _compose_system(self, molecules):
         """
